@@ -787,7 +787,12 @@ type Tester interface {
 // tester tests rows against a filter
 type tester struct {
 	columns []*Column
-	values  []interface{}
+	// values holds the driver values of the filter as they were when the tester
+	// was made: a filter value given by pointer may change afterwards.
+	values []interface{}
+	// invalid is set if a filter value could not be turned into a driver value:
+	// such a tester matches no row.
+	invalid bool
 }
 
 // coerce coerces some types for more idiomatic comparisons
@@ -819,13 +824,13 @@ func (t *tester) Test(row interface{}) bool {
 		return false
 	}
 
+	if t.invalid {
+		return false
+	}
+
 	struc := reflect.ValueOf(row).Elem()
 	for i, column := range t.columns {
-		expected, err := column.Descriptor.Valuer(reflect.ValueOf(t.values[i])).Value()
-		if err != nil {
-			// Ignore error.
-			return false
-		}
+		expected := t.values[i]
 		value, err := column.Descriptor.Valuer(struc.FieldByIndex(column.Index)).Value()
 		if err != nil {
 			// Ignore error.
@@ -909,8 +914,12 @@ func (s *Schema) MakeTester(table string, filter Filter) (Tester, error) {
 		if !ok {
 			return nil, fmt.Errorf("unknown column %s", name)
 		}
+		expected, err := column.Descriptor.Valuer(reflect.ValueOf(value)).Value()
+		if err != nil {
+			return &tester{invalid: true}, nil
+		}
 		columns = append(columns, column)
-		values = append(values, value)
+		values = append(values, expected)
 	}
 
 	return &tester{
